@@ -7,7 +7,7 @@
    Hypotheses: pixel scales non-zero (the code divides the origin by them); positive where a derived pixel scale must be
    non-zero (overlay).  Index-valued statements need no hypothesis at all. *)
 From Coq Require Import ZArith QArith List Bool Reals Lra.
-From PAV Require Import Base.Res Base.NumOps Model.C12 Proofs.C12 Proofs.C12Reloc Proofs.C12Spec Proofs.C12Edge.
+From PAV Require Import Base.Res Base.NumOps Model.C12 Proofs.C12 Proofs.C12Reloc Proofs.C12Spec Proofs.C12Edge Proofs.C12OneD.
 From PAV Require Model.C10.
 Import ListNotations.
 Local Open Scope R_scope.
@@ -376,6 +376,34 @@ Proof. vm_compute. repeat split. Qed.
 Example C12_real_hyps_satisfiable : exists M : @mask2d ROps, 0 < fst (mps M) /\ 0 < snd (mps M) /\ fst (mps M) <> 0 /\ snd (mps M) <> 0.
 Proof. exists {| mk := [[false]]; mps := ((1, 2) : @pt ROps); morg := ((3, 4) : @pt ROps) |}. cbn. repeat split; lra. Qed.
 
+(* the 1-D variants (Mask1D / Grid1D.from_mask / Grid1D.uniform / Mask1D.derive_grid.all_false / Geometry1D.extent and the 1d
+   conversions of geometry_util): coordinates move by exactly d, pixel indices of translated points do not move, and every result
+   is an origin-free closed form plus the origin *)
+Theorem C12_one_dimensional_variants :
+  (forall (r : list bool) (ps o d : R), ps <> 0 ->
+     @grid_1d_via_mask ROps r ps (o + d) = @shift1 ROps d (@grid_1d_via_mask ROps r ps o) /\
+     @grid_1d_all_false ROps r ps (o + d) = @shift1 ROps d (@grid_1d_all_false ROps r ps o) /\
+     @grid_1d_via_mask ROps r ps o = @shift1 ROps o (@rel_grid_1d ROps r ps)) /\
+  (forall (n : Z) (ps o d : R),
+     @extent_1d ROps n ps (o + d) = (fst (@extent_1d ROps n ps o) + d, snd (@extent_1d ROps n ps o) + d) /\
+     @extent_1d ROps n ps o = (fst (@rel_extent_1d ROps n ps) + o, snd (@rel_extent_1d ROps n ps) + o)) /\
+  (forall (n : Z) (ps o d x : R),
+     @pixel_coordinates_1d ROps n ps (o + d) (x + d) = @pixel_coordinates_1d ROps n ps o x /\
+     @pixel_coordinates_1d ROps n ps o x = @rel_pixel_1d ROps n ps (x - o)) /\
+  (forall (n : Z) (ps o d q : R), ps <> 0 ->
+     @scaled_coordinates_1d ROps n ps (o + d) q = @scaled_coordinates_1d ROps n ps o q + d /\
+     @scaled_coordinates_1d ROps n ps o q = @rel_scaled_1d ROps n ps q + o).
+Proof. exact one_dimensional_variants. Qed.
+
+Example C12_one_dimensional_nonvacuous :
+  let r := [true; false; false; true; false] in
+  (@grid_1d_via_mask QOps r (3 # 2) (1 # 4) = [(- 5 # 4); (1 # 4); (13 # 4)] /\
+   @grid_1d_via_mask QOps r (3 # 2) ((1 # 4) + (5 # 8)) = @shift1 QOps (5 # 8) (@grid_1d_via_mask QOps r (3 # 2) (1 # 4)) /\
+   @extent_1d QOps 5 (3 # 2) (1 # 4) = ((- 7 # 2), 4) /\
+   @pixel_coordinates_1d QOps 5 (3 # 2) (1 # 4) (13 # 4) = 4%Z /\
+   @pixel_coordinates_1d QOps 5 (3 # 2) ((1 # 4) + (5 # 8)) ((13 # 4) + (5 # 8)) = 4%Z)%Q.
+Proof. vm_compute. repeat split. Qed.
+
 Print Assumptions C12_pixel_indices_invariant.
 Print Assumptions C12_pixel_indices_relative.
 Print Assumptions C12_coordinate_conversions_translate.
@@ -403,3 +431,4 @@ Print Assumptions C12_radial_projection_any_angle.
 Print Assumptions C12_border_views_translate.
 Print Assumptions C12_edge_and_border_grids_translate.
 Print Assumptions C12_call_site_relative_forms.
+Print Assumptions C12_one_dimensional_variants.
